@@ -245,6 +245,7 @@ Definition opMulEq_Tu8 (x n : Z) : Z := opMulEq_I x (ctor_u8 n).
 
 (* ------------------------------------------------------------------ the build configuration the C-integer layer and the limb functions are written for:
    bits of long, uint64_t, mp_limb_t, int; __GIVARO_SIZEOF_LONG; GMP_NUMB_BITS; sizeof(mp_limb_t) (the exponent of Integer(vect_t)'s base 256);
-   unsigned long = uint64_t, long = int64_t.  The harness prints the same list from the compiled tree on every run. *)
+   unsigned long = uint64_t, long = int64_t; the constants Integer::zero, one, mOne.  The harness prints the same list from the compiled tree on every run. *)
+Definition Integer_mOne : Z := -1.
 Definition config : list Z :=
-  Z.log2 W64 :: Z.log2 W64 :: Z.log2 W64 :: Z.log2 W32 :: Z.log2 W64 / 8 :: Z.log2 W64 :: Z.log2 (256 ^ 8) / 8 :: 1 :: 1 :: nil.
+  Z.log2 W64 :: Z.log2 W64 :: Z.log2 W64 :: Z.log2 W32 :: Z.log2 W64 / 8 :: Z.log2 W64 :: Z.log2 (256 ^ 8) / 8 :: 1 :: 1 :: Integer_zero :: Integer_one :: Integer_mOne :: nil.
